@@ -96,6 +96,13 @@ def pure(e: ast.AST, cx: Ctx) -> Tuple[str, str]:
         if ty in ("optdeser", "optser"):
             return (f"(negb (opt_truthy {t}))", "bool")
         raise Refuse(e, f"truthiness of a value of type {ty}", fn)
+    if (isinstance(e, ast.Compare) and len(e.ops) == 1 and isinstance(e.ops[0], (ast.Is, ast.IsNot))
+            and isinstance(e.comparators[0], ast.Constant) and e.comparators[0].value is None):
+        t, ty = pure(e.left, cx)
+        if ty == "jv":          # `x is None` on a loaded JSON value
+            r = f"(jv_isinstance {t} [TNoneType])"
+            return (r if isinstance(e.ops[0], ast.Is) else f"(negb {r})", "bool")
+        raise Refuse(e, f"`is None` on a value of type {ty}", fn)
     if isinstance(e, ast.BoolOp):
         vals = [pure(v, cx) for v in e.values]
         if any(ty != "bool" for _, ty in vals):
